@@ -160,7 +160,14 @@ func (fs *ReaderFS) readErr(r io.Reader) error {
 	case err := <-errs:
 		return err
 	case <-done:
-		return nil
+		// a background writer reports its error before it signals completion, so both channels can be ready:
+		// the error must win
+		select {
+		case err := <-errs:
+			return err
+		default:
+			return nil
+		}
 	}
 }
 
